@@ -161,7 +161,7 @@ mutual
 /-- the element that starts on line `s`, and the line after it -/
 def rdItem : Item → Nat → Item × Nat
   | .field f, s => (.field { f with loc := lineLoc s s, index := 0 }, s + 1)
-  | .rpc l i a b c d, s => (.rpc l i a b c d, s)
+  | .rpc _ _ a b c _, s => (.rpc (lineLoc s s) 0 a b c [], s + 1)
   | .block kw t _ _ name _ kids, s =>
     if kids.isEmpty then (.block kw t (lineLoc s s) 0 name [] [], s + 1)
     else (.block kw t (lineLoc s (rdKids kids true 0 (s + 1) false).2) 0 name [] (rdKids kids true 0 (s + 1) false).1,
@@ -240,7 +240,7 @@ mutual
 /-- the shape the layout lemmas need: no options, no comments, no methods -/
 def Plain : Item → Prop
   | .field f => SimpleField f ∨ SimpleValue f
-  | .rpc _ _ _ _ _ _ => False
+  | .rpc l _ _ _ _ os => l.isNone ∧ os = []
   | .block _ _ l _ _ os ks => l.isNone ∧ os = [] ∧ PlainList ks
 def PlainList : List Item → Prop
   | [] => True
@@ -277,7 +277,7 @@ theorem Plain.loc : ∀ e, Plain e → e.loc.isNone
     rcases h with h | h
     · exact h.2.1
     · exact h.2.1
-  | .rpc _ _ _ _ _ _, h => h.elim
+  | .rpc _ _ _ _ _ _, h => h.1
   | .block _ _ _ _ _ _ _, h => h.1
 
 /-- the one line of a field or an enum value -/
@@ -292,10 +292,21 @@ theorem fieldCmds_leaf (n : Nat) (f : FieldD) (h : SimpleField f ∨ SimpleValue
   · rw [fieldCmds_simple n f h]; simp [leafLine, h.1]
   · rw [fieldCmds_value n f h]; simp [leafLine, h.1]
 
+/-- the line of a method without options -/
+def rpcLine (n : Nat) (name inT outT : String) : String :=
+  ind n ("rpc " ++ name ++ "(" ++ inT ++ ") returns (" ++ outT ++ ")" ++ " {}" ++ "")
+
+theorem rpcCmds_plain (n : Nat) (l : Loc) (i : Nat) (name inT outT : String) (hl : l.isNone) :
+    itemCmds n (.rpc l i name inT outT []) = [Cmd.line (rpcLine n name inT outT)] ++ [Cmd.gap] := by
+  simp only [itemCmds]
+  rw [leadingCmds_noComments n hl.noComments, trailingCmds_noComments n hl.noComments,
+    inlineComment_noComments hl.noComments]
+  simp [sortOpts, Order.isort, rpcLine]
+
 /-- the tokens of an element that starts on line `s` -/
 def itemToks (n : Nat) : Item → Nat → List PTok
   | .field f, s => lineToks (leafLine n f) s
-  | .rpc _ _ _ _ _ _, _ => []
+  | .rpc _ _ name inT outT _, s => lineToks (rpcLine n name inT outT) s
   | .block kw _ _ _ name _ kids, s =>
     if kids.isEmpty then lineToks (ind n (kw ++ " " ++ name ++ " {}")) s
     else lineToks (ind n (kw ++ " " ++ name ++ " {" ++ "")) s ++
@@ -319,7 +330,16 @@ theorem lay_item : ∀ (e : Item), Plain e → ∀ (n : Nat) (g : Bool) (L : Nat
     refine ⟨trivial, ?_, ?_⟩
     · cases g <;> simp [nLines, exec]
     · cases g <;> simp [exec]
-  | .rpc _ _ _ _ _ _, h, _, _, _ => h.elim
+  | .rpc l i name inT outT os, h, n, g, L => by
+    simp only [Plain] at h
+    obtain ⟨hl, ho⟩ := h
+    subst ho
+    rw [rpcCmds_plain n l i name inT outT hl]
+    simp only [itemToks, rdItem, Item.gapEnder]
+    refine ⟨?_, ?_, ?_⟩
+    · rw [toksOf_append, toksOf_line]; simp [toksOf_gap, startLine]
+    · cases g <;> simp [nLines, exec, startLine]
+    · cases g <;> simp [exec]
   | .block kw t l i name os kids, h, n, g, L => by
     simp only [Plain] at h
     obtain ⟨hl, ho, hk⟩ := h
@@ -699,7 +719,7 @@ mutual
 theorem rdItem_mono : ∀ (e : Item) (s : Nat), Plain e → s < (rdItem e s).2 ∧
     (rdItem e s).1.loc.startLine = s ∧ (rdItem e s).1.loc.endLine + 1 = (rdItem e s).2
   | .field f, s, _ => by simp [rdItem, Item.loc, lineLoc]
-  | .rpc _ _ _ _ _ _, _, h => h.elim
+  | .rpc _ _ _ _ _ _, s, _ => by simp [rdItem, Item.loc, lineLoc]
   | .block kw t l i name os kids, s, h => by
     simp only [Plain] at h
     simp only [rdItem]
@@ -726,7 +746,12 @@ theorem relaid_rdItem : ∀ (e : Item) (s : Nat), Plain e → relaid e (rdItem e
     simp only [Plain] at h
     simp only [rdItem, relaid]
     exact fieldOk_rd f h s
-  | .rpc _ _ _ _ _ _, _, h => h.elim
+  | .rpc l i name inT outT os, s, h => by
+    simp only [Plain] at h
+    obtain ⟨_, ho⟩ := h
+    subst ho
+    simp only [rdItem, relaid]
+    exact ⟨trivial, trivial, trivial, ⟨rfl, rfl, rfl⟩, optsOk_nil⟩
   | .block kw t l i name os kids, s, h => by
     simp only [Plain] at h
     obtain ⟨_, ho, hk⟩ := h
